@@ -165,3 +165,22 @@ package gomatrixserverlib
 //@   loop 2: invariant forall d string, k string :: { seen(2)[d], k in get(m.newMember.ThirdPartyInvite.Signed.Signatures, d) } (seen(2)[d] && k in get(m.newMember.ThirdPartyInvite.Signed.Signatures, d) && hasPrefix(k, "ed25519")) ==> !vjOK(d, k, str(publicKey.PublicKey), str(marshalledSigned))
 //@   loop 3: invariant forall k string :: (seen(3)[k] && hasPrefix(k, "ed25519")) ==> !vjOK(domain, k, str(publicKey.PublicKey), str(marshalledSigned))
 //@   assigns nothing
+
+//@ func (*CreateContent).DomainAllowed
+//@   property C07
+//@   requires c != nil
+//@   ensures iff: (err == nil) <==> domainAllowedSpec(*c, domain)
+//@   assigns nothing
+
+//@ func (*CreateContent).UserIDAllowed
+//@   property C07
+//@   requires c != nil
+//@   ensures iff: (err == nil) <==> domainAllowedSpec(*c, id.domain)
+//@   assigns nothing
+
+//@ func (*eventAllower).commonChecks
+//@   property C07
+//@   frameprop C09
+//@   requires e != nil && e.allowerContext != nil && event != nil && e.userIDQuerier != nil && (e.powerLevelsEvent == nil ==> e.createEvent != nil)
+//@   ensures iff: (err == nil) <==> commonSpec(*e, event)
+//@   assigns nothing
